@@ -145,8 +145,14 @@ impl ConnectionManager {
                     }
                 }
                 connecting = self.endpoint.accept() => {
-                    if let Some(connecting) = connecting {
-                        self.handle_incoming(connecting);
+                    match connecting {
+                        Some(connecting) => self.handle_incoming(connecting),
+                        // `None` means the endpoint was closed or its driver terminated (e.g.
+                        // after an unrecoverable socket error or during runtime teardown). From
+                        // then on `accept()` resolves to `None` immediately, so looping would
+                        // spin forever without ever yielding; no connection can be accepted or
+                        // driven any more, so terminate the network instead.
+                        None => break,
                     }
                 },
                 Some(connecting_output) = self.pending_connections.join_next() => {
